@@ -133,6 +133,11 @@ the check re-run on the unchanged tree with several seeds.
   (c) KeyStart was violated in the model by video resuming with a non-key frame after an audio-only gap: that is an
   input the statement cannot mean, so the input assumption "a non-key frame follows the previous video frame
   within two fragment lengths" was added (it is listed in the evidence).
+* **C10, thorough tier.** The first full thorough run reported `segment-starts-with-a-non-key-frame` under a key that is
+  not the known finding's: same defect (audio cut at twice the fragment length), but the acceptor measured the age of
+  the *first* segment from its first frame while the code counts it from time 0. The classification was corrected
+  (`HlsTrace.tla`); the other report of that run (a segment file left behind after close, 1 of 120 runs) was genuine
+  and repaired (1c8bde1).
 * **C14.** "Header section with endless short lines" and "Content-Length that is not a number" were first judged as
   violations; the statement names the over-long *line* and the *absurd length*, so the former is observed only and
   the latter must merely not panic, hang or allocate.
